@@ -33,6 +33,7 @@ HttpsAt(hs, n, svcb) ==
           [] hs = "aliasdot" -> OK(<< RR(n, "HTTPS", Svc(0, "", "nil")) >>)
           [] hs = "svcdot"   -> OK(<< RR(n, "HTTPS", Svc(1, "", "E1")) >>)
           [] hs = "svct"     -> OK(<< RR(n, "HTTPS", Svc(1, "t", "E1")) >>)
+          [] hs = "svcself"  -> OK(<< RR(n, "HTTPS", Svc(1, Origin, "E1")), RR(n, "HTTPS", Svc(2, "", "nil")) >>)   \* TargetName spelled out as the name asked (usually written ".")
           [] hs = "unsorted" -> OK(<< RR(n, "HTTPS", Svc(3, "", "E2")), RR(n, "HTTPS", Svc(1, "t", "E1")), RR(n, "HTTPS", Svc(2, "", "nil")) >>)
           [] hs = "poisoned" -> OK(<< RR(N("evil"), "HTTPS", Svc(1, "evil", "E2")), RR(n, "HTTPS", Svc(2, "", "E1")) >>)
           [] hs = "cnamed"   -> OK(<< RR(n, "CNAME", N("c")), RR(N("c"), "HTTPS", Svc(1, "", "E1")) >>)
